@@ -180,6 +180,9 @@ pub enum Op {
     AllFiles(String),
     Entries(String), // default options, result as a sorted multiset of entry views
     ConfigDir(String),
+    /// a builder (ChmodB / ChownB / CopyB) that is created with the cwd at .1[0], kept while the cwd moves to .1[1],
+    /// executed, and - when there is a .1[2] - executed a second time after the cwd moved there
+    Held(Box<Op>, Vec<String>),
 }
 
 impl Op {
@@ -237,6 +240,7 @@ impl Op {
             AllFiles(..) => "all_files",
             Entries(..) => "entries",
             ConfigDir(..) => "config_dir",
+            Held(..) => "held_builder",
         }
     }
     /// path arguments in order
@@ -250,6 +254,11 @@ impl Op {
             | AllDirs(p) | AllFiles(p) | Entries(p) => vec![p],
             MoveP(a, b) | Copy(a, b) | CopyB(a, b, _, _) | Symlink(a, b) => vec![a, b],
             Cwd | Root | ConfigDir(_) => vec![],
+            Held(inner, cwds) => {
+                let mut v = inner.paths();
+                v.extend(cwds.iter().map(|c| c.as_str()));
+                v
+            },
         }
     }
     pub fn with_paths(&self, ps: &[String]) -> Op {
@@ -307,6 +316,10 @@ impl Op {
             AllFiles(_) => AllFiles(p()),
             Entries(_) => Entries(p()),
             ConfigDir(n) => ConfigDir(n.clone()),
+            Held(inner, cwds) => {
+                let n = inner.paths().len();
+                Held(Box::new(inner.with_paths(&ps[..n])), ps[n..n + cwds.len()].to_vec())
+            },
         }
     }
     pub fn is_query(&self) -> bool {
@@ -604,6 +617,79 @@ fn exec_inner<V: VirtualFileSystem>(v: &V, op: &Op) -> Res {
         AllPaths(p) => r_paths(v.all_paths(p)),
         AllDirs(p) => r_paths(v.all_dirs(p)),
         AllFiles(p) => r_paths(v.all_files(p)),
+        Held(inner, cwds) => {
+            enum B {
+                Chmod(rivia::sys::Chmod),
+                Chown(rivia::sys::Chown),
+                Copy(rivia::sys::Copier),
+            }
+            let _ = v.set_cwd(&cwds[0]);
+            let built: Result<B, String> = match &**inner {
+                ChmodB(p, o) => v.chmod_b(p).map_err(|e| err_kind(&e)).map(|mut c| {
+                    if let Some(x) = o.all {
+                        c = c.all(x);
+                    }
+                    if let Some(x) = o.dirs {
+                        c = c.dirs(x);
+                    }
+                    if let Some(x) = o.files {
+                        c = c.files(x);
+                    }
+                    if let Some(x) = &o.sym {
+                        c = c.sym(x);
+                    }
+                    match o.recurse {
+                        Some(true) => c = c.recurse(),
+                        Some(false) => c = c.no_recurse(),
+                        None => {},
+                    }
+                    if o.follow {
+                        c = c.follow();
+                    }
+                    B::Chmod(c)
+                }),
+                ChownB(p, o) => v.chown_b(p).map_err(|e| err_kind(&e)).map(|mut c| {
+                    if let Some(x) = o.uid {
+                        c = c.uid(x);
+                    }
+                    if let Some(x) = o.gid {
+                        c = c.gid(x);
+                    }
+                    if let Some(x) = o.recurse {
+                        c = c.recurse(x);
+                    }
+                    if o.follow {
+                        c = c.follow();
+                    }
+                    B::Chown(c)
+                }),
+                CopyB(a, b, m, f) => v.copy_b(a, b).map_err(|e| err_kind(&e)).map(|c| {
+                    let c = m.apply(c);
+                    B::Copy(if *f { c.follow(true) } else { c })
+                }),
+                _ => Err("not-a-builder".into()),
+            };
+            let mut out = vec![];
+            match built {
+                Err(k) => out.push(format!("build: Err({})", k)),
+                Ok(b) => {
+                    out.push("build: Ok".to_string());
+                    for c in &cwds[1..] {
+                        let _ = v.set_cwd(c);
+                        let r = match &b {
+                            B::Chmod(x) => x.exec(),
+                            B::Chown(x) => x.exec(),
+                            B::Copy(x) => x.exec(),
+                        };
+                        out.push(match r {
+                            Ok(()) => "exec: Ok".to_string(),
+                            Err(e) => format!("exec: Err({})", err_kind(&e)),
+                        });
+                    }
+                },
+            }
+            Res::Lines(out)
+        },
         ConfigDir(n) => match v.config_dir(n) {
             Some(p) => Res::Path(ps(&p)),
             None => Res::Unit,
